@@ -54,6 +54,8 @@ def spec_st(draw, max_n=7, min_workers=1):
         screen=draw(st.sampled_from([0, 0, 1, 3])), pattern=draw(st.sampled_from([False, False, True])),
         # QuanTIS zero swaps ([0-] on its own engine section); not together with lambda_-1 (the configuration check forbids it)
         quantis=(lm1 is None and ens_engs is None and draw(st.sampled_from([False, False, False, True]))),
+        # where the paths and the data file live is the user's choice
+        load_dir=draw(st.sampled_from([None, None, None, "trajs", "paths/in"])), data_dir=draw(st.sampled_from([None, None, None, "out", "./res/"])),
         int_toml=(origin in (0.5, 1.5) and draw(st.booleans())),  # with a half-integer origin the interfaces are whole numbers: written as TOML integers
     )
 
@@ -159,7 +161,7 @@ def final_accounting(d, spec, results, flags, viol):
     if ic is None or cfg is None:
         return {}
     n = spec["n"]
-    data_file = os.path.join(d, os.path.basename(cfg["output"].get("data_file", "infretis_data.txt")))
+    data_file = os.path.join(d, cfg["output"].get("data_file", "infretis_data.txt"))
     rows = simdrv.parse_data_file(data_file, n) if os.path.exists(data_file) else []
     tot = [0.0] * n
     for r in rows:
